@@ -1,10 +1,111 @@
-//! Poll-by-poll executor with a no-op waker.
+//! Poll-by-poll executor with a no-op waker, plus a wake-driven variant: a waker that records
+//! whether it was woken, so that the harness can behave like a real runtime (poll a task again
+//! only after its waker fired) and observe lost wake-ups.
 
 use core::{
     future::Future,
     pin::Pin,
     task::{Context, Poll, Waker},
 };
+use std::{
+    cell::{Cell, RefCell},
+    collections::HashMap,
+    sync::{
+        atomic::{AtomicBool, AtomicU64, Ordering},
+        Arc,
+    },
+    task::Wake,
+};
+
+thread_local! {
+    /// (task id, number of the top-level poll in progress) while a task is being polled through
+    /// `WakeFlag::poll`, (0, 0) otherwise.
+    static CURRENT: Cell<(u64, u64)> = const { Cell::new((0, 0)) };
+    /// Number of top-level polls made so far, per task id.
+    static GENS: RefCell<HashMap<u64, u64>> = RefCell::new(HashMap::new());
+}
+static NEXT_TASK: AtomicU64 = AtomicU64::new(1);
+
+/// A task handle as a runtime keeps it: "has the waker fired since the last poll".
+#[derive(Debug)]
+pub struct WakeFlag {
+    id: u64,
+    woken: AtomicBool,
+    pub wakes: AtomicU64,
+}
+
+impl Wake for WakeFlag {
+    fn wake(self: Arc<Self>) {
+        self.wake_by_ref()
+    }
+    fn wake_by_ref(self: &Arc<Self>) {
+        self.woken.store(true, Ordering::SeqCst);
+        self.wakes.fetch_add(1, Ordering::SeqCst);
+    }
+}
+
+impl WakeFlag {
+    pub fn new() -> Arc<Self> {
+        Arc::new(WakeFlag { id: NEXT_TASK.fetch_add(1, Ordering::SeqCst), woken: AtomicBool::new(false), wakes: AtomicU64::new(0) })
+    }
+    /// Was the waker fired since the last `poll` (clears the flag).
+    pub fn take(&self) -> bool {
+        self.woken.swap(false, Ordering::SeqCst)
+    }
+    pub fn is_set(&self) -> bool {
+        self.woken.load(Ordering::SeqCst)
+    }
+    /// Poll `fut` once with this flag as the waker (the flag is cleared first, as a runtime does
+    /// when it takes a task off its run queue).
+    pub fn poll<F: Future + ?Sized>(self: &Arc<Self>, fut: Pin<&mut F>) -> Poll<F::Output> {
+        self.woken.store(false, Ordering::SeqCst);
+        let gen = GENS.with(|g| {
+            let mut g = g.borrow_mut();
+            let e = g.entry(self.id).or_insert(0);
+            *e += 1;
+            *e
+        });
+        let prev = CURRENT.with(|c| c.replace((self.id, gen)));
+        let waker = Waker::from(self.clone());
+        let mut cx = Context::from_waker(&waker);
+        let r = fut.poll(&mut cx);
+        CURRENT.with(|c| c.set(prev));
+        r
+    }
+}
+
+impl Drop for WakeFlag {
+    fn drop(&mut self) {
+        let _ = GENS.try_with(|g| g.borrow_mut().remove(&self.id));
+    }
+}
+
+/// A waker registration kept by a virtual source of readiness. A registration is honoured only if it
+/// was made during the most recent top-level poll of its task: a future that returned `Pending` must
+/// have registered, during that very poll, with everything it is waiting for (registrations made by
+/// futures of earlier polls are void, as they are with a real reactor once those futures are dropped).
+#[derive(Debug, Default)]
+pub struct WakeSlot(Option<(u64, u64, Waker)>);
+
+impl WakeSlot {
+    /// The source returned `Pending`: remember who to wake.
+    pub fn register(&mut self, cx: &Context<'_>) {
+        let (id, gen) = CURRENT.with(|c| c.get());
+        self.0 = Some((id, gen, cx.waker().clone()));
+    }
+    /// The source became ready: wake the registered task, if the registration is current.
+    pub fn fire(&mut self) {
+        if let Some((id, gen, w)) = self.0.take() {
+            let current = id == 0 || GENS.with(|g| g.borrow().get(&id).copied()) == Some(gen);
+            if current {
+                w.wake();
+            }
+        }
+    }
+    pub fn clear(&mut self) {
+        self.0 = None;
+    }
+}
 
 /// Poll a pinned future once.
 pub fn poll_once<F: Future + ?Sized>(fut: Pin<&mut F>) -> Poll<F::Output> {
